@@ -169,19 +169,28 @@ def _canon_compare(node: ast.Compare, text) -> tuple[str, bool] | None:
     return None
 
 
-def decompose(test: ast.AST, value: bool, text) -> list[tuple[str, bool]]:
-    """Atoms whose truth is implied by `test` evaluating to `value`."""
+def decompose(test: ast.AST, value: bool, text, expand=None) -> list[tuple[str, bool]]:
+    """Atoms whose truth is implied by `test` evaluating to `value`.  With
+    ``expand`` a call atom (a predicate helper such as ``self._done()``) is
+    replaced by its one-expression body first."""
     if isinstance(test, ast.UnaryOp) and isinstance(test.op, ast.Not):
-        return decompose(test.operand, not value, text)
+        return decompose(test.operand, not value, text, expand)
     if isinstance(test, ast.BoolOp):
         if (isinstance(test.op, ast.And) and value) or (isinstance(test.op, ast.Or) and not value):
             out = []
             for v in test.values:
-                out += decompose(v, value, text)
+                out += decompose(v, value, text, expand)
             return out
         if len(test.values) == 1:
-            return decompose(test.values[0], value, text)
+            return decompose(test.values[0], value, text, expand)
         return []
+    if isinstance(test, ast.Call) and expand is not None:
+        try:
+            e = expand(test)
+        except Exception:
+            e = test
+        if isinstance(e, (ast.BoolOp, ast.Compare)) or (isinstance(e, ast.UnaryOp) and isinstance(e.op, ast.Not)):
+            return decompose(e, value, text, None)
     if isinstance(test, ast.Compare):
         c = _canon_compare(test, text)
         if c is not None:
@@ -200,7 +209,8 @@ def path_atoms(ctx, events, upto=None) -> dict[str, bool]:
         if ev.kind != "branch":
             continue
         text = lambda n, _f=ev.fi: ctx.norm.xtext(_f, n)  # noqa: E731
-        for a, v in decompose(ev.node, ev.data["taken"], text):
+        expand = lambda n, _f=ev.fi: ctx.norm.xexpr(_f, n)  # noqa: E731
+        for a, v in decompose(ev.node, ev.data["taken"], text, expand):
             out[a] = v
     return out
 
@@ -255,6 +265,35 @@ def key_lambda(fi: FuncInfo, key: ast.AST | None, cls: ClassInfo | None = None, 
                 args=ast.arguments(posonlyargs=[], args=[ast.arg(arg="x")], kwonlyargs=[], kw_defaults=[], defaults=[]),
                 body=ast.Subscript(value=x, slice=key.args[0], ctx=ast.Load()),
             )
+        # a module-level factory whose whole body is `return lambda v: ...`
+        # (`key=_score_of(scores)`): the lambda with the factory's parameters
+        # replaced by the (pure-path) arguments
+        if isinstance(key.func, ast.Name):
+            g = fi.module.functions.get(key.func.id)
+            if g is not None and not isinstance(g.node, ast.Lambda):
+                body = [x for x in g.node.body if not (isinstance(x, ast.Expr) and isinstance(x.value, ast.Constant))]
+                a = g.node.args
+                if (
+                    len(body) == 1 and isinstance(body[0], ast.Return) and isinstance(body[0].value, ast.Lambda)
+                    and not (a.vararg or a.kwarg or a.kwonlyargs or a.posonlyargs) and not key.keywords
+                    and len(a.args) == len(key.args)
+                ):
+                    import copy as _copy
+
+                    lam = _copy.deepcopy(body[0].value)
+                    if len(lam.args.args) != 1:
+                        return None
+                    sub = {p.arg: v for p, v in zip(a.args, key.args)}
+                    shadow = {x.arg for x in lam.args.args}
+
+                    class _S(ast.NodeTransformer):
+                        def visit_Name(self, n):
+                            if n.id in sub and n.id not in shadow and isinstance(n.ctx, ast.Load):
+                                return _copy.deepcopy(sub[n.id])
+                            return n
+
+                    lam.body = _S().visit(lam.body)
+                    return lam
         return None
 
     def from_def(n):
@@ -527,3 +566,69 @@ def ctor_self_write(w) -> bool:
     while isinstance(obj, (ast.Attribute, ast.Subscript)):
         obj = obj.value
     return isinstance(obj, ast.Name) and obj.id == fi.params[0]
+
+
+# --------------------------------------------------------------------------
+def mutated_mutable_defaults(ctx, module_prefixes: tuple[str, ...]):
+    """(function, parameter, write event) for every function of the given
+    modules that mutates - directly or through a local alias - the object of a
+    *mutable default argument* (``def f(x, acc=[])``): the default is created
+    once, so what one call adds is still there in the next call and the result
+    depends on the call history."""
+    from .c05 import _writes
+
+    out = []
+    n_defaults = 0
+    for fi in ctx.repo.all_functions():
+        if isinstance(fi.node, ast.Lambda) or not fi.module.name.startswith(module_prefixes):
+            continue
+        a = fi.node.args
+        pos = a.posonlyargs + a.args
+        pairs = list(zip(pos[len(pos) - len(a.defaults):], a.defaults)) + [(p, d) for p, d in zip(a.kwonlyargs, a.kw_defaults) if d is not None]
+        mutable = set()
+        for p, d in pairs:
+            if isinstance(d, (ast.List, ast.Dict, ast.Set, ast.ListComp, ast.DictComp, ast.SetComp)) or (
+                isinstance(d, ast.Call) and isinstance(d.func, ast.Name) and d.func.id in ("list", "dict", "set", "defaultdict", "deque", "bytearray")
+            ):
+                mutable.add(p.arg)
+        if not mutable:
+            continue
+        n_defaults += len(mutable)
+        for w in _writes(ctx, fi, fi.cls):
+            for o in w.origins:
+                if o[0] == "param" and o[1] in mutable:
+                    out.append((fi, o[1], w))
+        # `alias += items` extends a list / set / dict in place
+        from ..effects import Write
+
+        for ev in ctx.effects.events(fi, fi.cls):
+            n = ev.node
+            if ev.kind == "write" and isinstance(n, ast.AugAssign) and isinstance(n.target, ast.Name) and isinstance(n.op, (ast.Add, ast.BitOr, ast.BitAnd, ast.Sub)):
+                tgt = ast.Name(id=n.target.id, ctx=ast.Load())
+                ast.copy_location(tgt, n.target)
+                for o in ctx.flow.origins(fi, tgt, fi.cls):
+                    if o[0] == "param" and o[1] in mutable:
+                        out.append((fi, o[1], Write(fi, ev, tgt, {o}, ())))
+    return out, n_defaults
+
+
+def check_mutable_defaults(ctx, rule_id: str, prefixes: tuple[str, ...], what: str):
+    """Declares and evaluates the 'no accumulation into a mutable default
+    argument' rule for the modules of one property."""
+    chk = ctx.chk
+    chk.rule(rule_id, f"no function of {what} modifies the object of a mutable default argument (a result must not depend on earlier calls)")
+    hits, n_def = mutated_mutable_defaults(ctx, prefixes)
+    seen = set()
+    for fi, pname, w in hits:
+        k = (fi.qualname, pname, id(w.event.node))
+        if k in seen:
+            continue
+        seen.add(k)
+        chk.violation(
+            rule_id, fi, w.event.node,
+            f"`{w.event.data.get('text')}` modifies the object of the mutable default argument `{pname}`: it is created once, "
+            "so what one call puts into it is still there in the next call and the result depends on the call history",
+            loc=w.loc,
+        )
+    if not hits:
+        chk.ok(rule_id, ", ".join(prefixes), "", f"{n_def} mutable default arguments, none is modified")
